@@ -1,7 +1,7 @@
 (* C17 - the oracles that are run over implementation traces return "ok" on every step of the model:
    create (failure / success under the requested name), delete refused / failed, delete successful -
    plain AND cascading -, each with the file tree (names and contents) of the whole package. *)
-From Icv Require Import Base.Tac Cw.CwModel Cw.CwTxn Cw.CwStrProofs Cw.CwTxnProofs Cw.CwCascadeProofs Cw.CwRemovalProofs.
+From Icv Require Import Base.Tac Facts.Facts_c17 Cw.CwFacts Cw.CwModel Cw.CwTxn Cw.CwStrProofs Cw.CwTxnProofs Cw.CwCascadeProofs Cw.CwRemovalProofs.
 From Coq Require Import NArith.
 Local Open Scope N_scope.
 
@@ -274,3 +274,57 @@ Proof.
   rewrite (cw_ftree_rm R st (cw_gone_keys ents) Hi tracked) by (intros x _ Hp; apply HGp; exact Hp).
   rewrite cw_ftree_eqb_refl. reflexivity.
 Qed.
+
+(* ---------------------------------------------------------------- statements used by Properties_C17.v *)
+Lemma cw_all_or_nothing_files : forall tracked st ty full nc content o st',
+  cw_inv st -> cw_create st ty full nc content o = (st', CwrFail) -> cw_ftree_of tracked st' = cw_ftree_of tracked st.
+Proof. intros tracked st ty full nc content o st' Hi Hc. rewrite (cw_create_fail_unchanged st ty full nc content o st' Hi Hc). reflexivity. Qed.
+
+Lemma cw_file_invariant :
+  cw_finv cw_store0 /\
+  (forall st, cw_finv st -> cw_inv st) /\
+  (forall st ty full nc content o st' r, cw_finv st -> cw_create st ty full nc content o = (st', r) ->
+     (forall eff deps, o = CwoOk eff deps -> cw_beq eff full = true) -> cw_finv st') /\
+  (forall st k nc deps, cw_finv st -> cw_finv (cw_add_static st k nc deps)) /\
+  (forall st k c st' r, cw_finv st -> cw_delete st k c = (st', r) -> cw_finv st').
+Proof.
+  split; [intros k H; discriminate H|]. split; [exact cw_finv_inv|]. split; [|split; [exact cw_finv_static|exact cw_finv_delete]].
+  intros st ty full nc content o st' r Hi Hc. unfold cw_create in Hc. rewrite cw_precheck_fact in Hc. exact (cw_finv_create st ty full nc content o st' r Hi Hc).
+Qed.
+
+Lemma cw_delete_cascade_files : forall st k o st',
+  cw_unique st -> cw_finv st -> cw_find k st = Some o -> co_runtime o = true ->
+  cw_depth st k (S (length (cs_objs st))) -> cw_delete st k true = (st', CwrOk) ->
+  forall x, cw_find x st <> None ->
+    (cw_desc st k x -> cw_fget x (cs_files st') = None) /\
+    (~ cw_desc st k x -> cw_fget x (cs_files st') = cw_fget x (cs_files st)).
+Proof.
+  intros st k o st' Hu Hi Hf Hr Hd Hdel x Hx.
+  destruct (cw_delete_cascade_exact st k o Hu Hf Hr Hd) as (st2 & E2 & _ & Hex). rewrite Hdel in E2. inversion E2; subst st2; clear E2.
+  destruct (cw_delete_ok_rm st k true st' Hi Hdel) as (R & -> & _ & _).
+  specialize (Hex x Hx). rewrite cw_find_rm in Hex. unfold cw_rm. cbn [cs_files].
+  rewrite (cw_fget_filter (fun y => negb (cw_kmem y R))).
+  destruct (cw_kmem x R); cbn [negb]; split; intros H; try reflexivity.
+  - exfalso. apply H. apply Hex. reflexivity.
+  - exfalso. apply Hx. apply Hex. exact H.
+Qed.
+
+Lemma cw_facts_all :
+  cw_opt_is f_cw_ident_regex (fun r => r = cw_regex_src) /\
+  cw_opt_is f_cw_lexer_ident_regex (fun r => r = cw_lexer_regex_src) /\
+  cw_opt_is f_cw_keyword_test_first (fun b => b = true) /\
+  cw_opt_is f_cw_emit_string_quotes_escaped (fun b => b = true) /\
+  cw_opt_is f_cw_number_fixed6 (fun b => b = true) /\
+  cw_src_mode = CwMatch /\
+  cw_chunk_whole = true /\ cw_src_import_escaped = true /\ cw_src_name_exact = true /\ cw_src_number_roundtrip = true /\
+  cw_src_precheck_object = true /\ cw_opt_is f_cw_delete_helper_removes_file (fun b => b = true) /\
+  filter (fun k => negb (cw_mem k cw_writer_keywords)) cw_lexer_keywords =
+    [[100; 101; 98; 117; 103; 103; 101; 114]; [105; 110]] /\
+  forallb (fun k => cw_mem k cw_lexer_keywords) [cw_s_null; cw_s_true; cw_s_false; cw_s_object; cw_s_import; cw_s_ignore_on_error] = true.
+Proof.
+  destruct cw_facts as (A1 & A2 & A3 & A4 & A5 & A6 & A7 & A8 & A9 & A10 & A11).
+  split; [exact A1|]. split; [exact A2|]. split; [exact A3|]. split; [exact A4|]. split; [exact A5|]. split; [exact A6|].
+  split; [exact A7|]. split; [exact A8|]. split; [exact A9|]. split; [exact A10|].
+  split; [exact cw_precheck_fact|]. split; [reflexivity|]. exact A11.
+Qed.
+
